@@ -10,6 +10,7 @@ import (
 	"math/big"
 	"strconv"
 	"strings"
+	"sync"
 	"sync/atomic"
 )
 
@@ -29,18 +30,43 @@ func sBV(w int) Sort { return Sort{'V', w} }
 
 // sUID is the sort of fixed-length (16 byte) identifier strings: a 128-bit
 // vector whose unsigned order is the byte-wise lexicographic string order.
-var sUID = Sort{'V', 128}
+// (Encoded as a mathematical integer in [0, 2^128): only equality and order
+// are ever applied to identifiers, and linear-order reasoning over Int is far
+// cheaper for the solver than 128-bit comparators.)
+var sUID = Sort{'I', 0}
 
 func tUIDConst(s string) *Term {
 	if len(s) != 16 {
 		panic("tUIDConst: length")
 	}
-	var hi, lo uint64
-	for i := 0; i < 8; i++ {
-		hi = hi<<8 | uint64(s[i])
-		lo = lo<<8 | uint64(s[8+i])
+	v := new(big.Int).SetBytes([]byte(s))
+	return intern("const", sUID, v.String(), 0, 0, nil)
+}
+
+var uidLimit = new(big.Int).Lsh(big.NewInt(1), 128).String()
+
+func tUIDRange(x *Term) *Term {
+	lim := intern("const", sUID, uidLimit, 0, 0, nil)
+	return tAnd(mk("<=", sBool, tIntConst(0), x), mk("<", sBool, x, lim))
+}
+
+func tIntLt(a, b *Term) *Term {
+	if a == b {
+		return tFalse
 	}
-	return mk("concat", sUID, tBV(64, hi), tBV(64, lo))
+	if a.IsConst() && b.IsConst() {
+		x, _ := new(big.Int).SetString(a.intText(), 10)
+		y, _ := new(big.Int).SetString(b.intText(), 10)
+		return tBool(x.Cmp(y) < 0)
+	}
+	return mk("<", sBool, a, b)
+}
+
+func (t *Term) intText() string {
+	if t.Str != "" {
+		return t.Str
+	}
+	return strconv.FormatInt(int64(t.U), 10)
 }
 
 func (s Sort) smt() string {
@@ -73,12 +99,77 @@ type Term struct {
 
 var termCounter uint64
 
-func mk(op string, s Sort, args ...*Term) *Term {
+// Terms are hash-consed (structurally equal terms are the same pointer), so
+// pointer equality gives cheap syntactic simplification and a per-path table
+// of already decided facts can answer repeated branch conditions without the
+// solver.
+type termKey4 struct {
+	op         string
+	s          Sort
+	str        string
+	u          uint64
+	f          uint64
+	n          int
+	a0, a1, a2 uint64
+	rest       string
+}
+
+const internShards = 64
+
+var internTab [internShards]struct {
+	mu sync.Mutex
+	m  map[termKey4]*Term
+}
+
+func init() {
+	for i := range internTab {
+		internTab[i].m = map[termKey4]*Term{}
+	}
+}
+
+func intern(op string, s Sort, str string, u uint64, f float64, args []*Term) *Term {
+	k := termKey4{op: op, s: s, str: str, u: u, f: math.Float64bits(f), n: len(args)}
+	h := uint64(len(op))*1315423911 ^ u ^ k.f
+	for i := 0; i < len(op); i++ {
+		h = h*31 + uint64(op[i])
+	}
+	for i := 0; i < len(str); i++ {
+		h = h*131 + uint64(str[i])
+	}
+	for i, a := range args {
+		switch i {
+		case 0:
+			k.a0 = a.id
+		case 1:
+			k.a1 = a.id
+		case 2:
+			k.a2 = a.id
+		default:
+			k.rest += strconv.FormatUint(a.id, 36) + ","
+		}
+		h = h*1000003 + a.id
+	}
+	sh := &internTab[h%internShards]
+	sh.mu.Lock()
+	defer sh.mu.Unlock()
+	if t, ok := sh.m[k]; ok {
+		return t
+	}
 	sz := 1
 	for _, a := range args {
 		sz += a.size
 	}
-	return &Term{Op: op, S: s, Args: args, id: atomic.AddUint64(&termCounter, 1), size: sz}
+	t := &Term{Op: op, S: s, Args: args, Str: str, U: u, F: f, id: atomic.AddUint64(&termCounter, 1), size: sz}
+	sh.m[k] = t
+	return t
+}
+
+func mk(op string, s Sort, args ...*Term) *Term {
+	return intern(op, s, "", 0, 0, args)
+}
+
+func mkS(op string, s Sort, str string, args ...*Term) *Term {
+	return intern(op, s, str, 0, 0, args)
 }
 
 func (t *Term) IsConst() bool { return t.Op == "const" }
@@ -91,17 +182,14 @@ func mask(w int) uint64 {
 }
 
 func tBV(w int, v uint64) *Term {
-	t := mk("const", sBV(w))
-	t.U = v & mask(w)
-	return t
+	return intern("const", sBV(w), "", v&mask(w), 0, nil)
 }
 
 var tTrue, tFalse *Term
 
 func init() {
-	tTrue = mk("const", sBool)
-	tTrue.U = 1
-	tFalse = mk("const", sBool)
+	tTrue = intern("const", sBool, "", 1, 0, nil)
+	tFalse = intern("const", sBool, "", 0, 0, nil)
 }
 
 func tBool(b bool) *Term {
@@ -111,29 +199,13 @@ func tBool(b bool) *Term {
 	return tFalse
 }
 
-func tStr(s string) *Term {
-	t := mk("const", sString)
-	t.Str = s
-	return t
-}
+func tStr(s string) *Term { return intern("const", sString, s, 0, 0, nil) }
 
-func tF64(f float64) *Term {
-	t := mk("const", sF64)
-	t.F = f
-	return t
-}
+func tF64(f float64) *Term { return intern("const", sF64, "", 0, f, nil) }
 
-func tIntConst(v int64) *Term {
-	t := mk("const", sInt)
-	t.U = uint64(v)
-	return t
-}
+func tIntConst(v int64) *Term { return intern("const", sInt, "", uint64(v), 0, nil) }
 
-func tVar(name string, s Sort) *Term {
-	t := mk("var", s)
-	t.Str = name
-	return t
-}
+func tVar(name string, s Sort) *Term { return intern("var", s, name, 0, 0, nil) }
 
 // signed value of a bitvec const
 func (t *Term) sval() int64 {
@@ -222,7 +294,9 @@ func tEq(a, b *Term) *Term {
 	}
 	if a.IsConst() && b.IsConst() {
 		switch a.S.K {
-		case 'B', 'V', 'I':
+		case 'I':
+			return tBool(a.intText() == b.intText())
+		case 'B', 'V':
 			return tBool(a.U == b.U)
 		case 'S':
 			return tBool(a.Str == b.Str)
@@ -254,6 +328,9 @@ func tEq(a, b *Term) *Term {
 			}
 			return tNot(a)
 		}
+	}
+	if a.id > b.id {
+		a, b = b, a
 	}
 	return mk("=", sBool, a, b)
 }
@@ -418,17 +495,12 @@ func tResize(a *Term, w int, signed bool) *Term {
 		return tBV(w, a.U)
 	}
 	if w < aw {
-		t := mk("extract", sBV(w), a)
-		t.Str = fmt.Sprintf("(_ extract %d 0)", w-1)
-		return t
+		return mkS("extract", sBV(w), fmt.Sprintf("(_ extract %d 0)", w-1), a)
 	}
-	t := mk("ext", sBV(w), a)
 	if signed {
-		t.Str = fmt.Sprintf("(_ sign_extend %d)", w-aw)
-	} else {
-		t.Str = fmt.Sprintf("(_ zero_extend %d)", w-aw)
+		return mkS("ext", sBV(w), fmt.Sprintf("(_ sign_extend %d)", w-aw), a)
 	}
-	return t
+	return mkS("ext", sBV(w), fmt.Sprintf("(_ zero_extend %d)", w-aw), a)
 }
 
 func tStrConcat(a, b *Term) *Term {
@@ -478,9 +550,7 @@ func tIntToStr(a *Term) *Term {
 
 // uninterpreted function application
 func tApp(fn string, s Sort, args ...*Term) *Term {
-	t := mk("app", s, args...)
-	t.Str = fn
-	return t
+	return mkS("app", s, fn, args...)
 }
 
 // ---------------------------------------------------------------------
@@ -520,6 +590,9 @@ func (t *Term) constSMT() string {
 	case 'S':
 		return smtStringLit(t.Str)
 	case 'I':
+		if t.Str != "" {
+			return t.Str
+		}
 		v := int64(t.U)
 		if v < 0 {
 			return fmt.Sprintf("(- %d)", -v)
